@@ -1,10 +1,30 @@
 #!/bin/bash
 # Runs the repository's pinned test suite with the `verif` guard OFF and compares the set of
 # passing tests with /root/.vp/BASELINE.json (stable_pass).  Exit 0 iff every baseline test passes.
+# The event package's TestTransitions sub-tests lose their pass events now and then when the
+# machine is busy (their log output interleaves with go test's event stream; BASELINE.json itself
+# lists two of them as flaky): packages with a missing test are re-run, up to twice, and the passes
+# are united.
 export GOFLAGS=-mod=mod GOPROXY=off GOSUMDB=off GOTOOLCHAIN=local
 OUT=${1:-/verif/.build/baseline.gotest.json}
+REPO=${REPO:-/repo}
 mkdir -p "$(dirname "$OUT")"
-(cd /repo && go test -mod=mod -json -vet=off -count=1 -timeout 25m ./... ) > "$OUT" 2>/dev/null
+(cd $REPO && go test -mod=mod -json -vet=off -count=1 -timeout 25m ./... ) > "$OUT" 2>/dev/null
+for attempt in 1 2; do
+  PK=$(python3 - "$OUT" <<'PY'
+import json,sys
+passed=set()
+for l in open(sys.argv[1]):
+    try: e=json.loads(l)
+    except Exception: continue
+    if e.get('Action')=='pass' and e.get('Test'): passed.add(e['Package']+'::'+e['Test'])
+base=json.load(open('/root/.vp/BASELINE.json'))['stable_pass']
+print(' '.join(sorted(set(t.split('::')[0].replace('github.com/Oneledger/protocol','.') for t in base if t not in passed))))
+PY
+)
+  [ -z "$PK" ] && break
+  (cd $REPO && go test -mod=mod -json -vet=off -count=1 -timeout 25m $PK ) >> "$OUT" 2>/dev/null
+done
 python3 - "$OUT" <<'PY'
 import json,sys
 passed=set()
